@@ -42,6 +42,28 @@ def main():
                     pass
         except Exception:
             pass
+        # ... and an earlier version of the very same API (same namespaces, same type names) in which every
+        # enumerated-subtypes tree is open where it is closed now and vice versa: tables keyed by a
+        # generated name must not carry over from one Api to the next
+        def flip(text):
+            out = []
+            for ln in text.split('\n'):
+                if ln.rstrip() == '    union':
+                    ln = '    union_closed'
+                elif ln.rstrip() == '    union_closed':
+                    ln = '    union'
+                out.append(ln)
+            return '\n'.join(out)
+        try:
+            older = [(n, flip(t)) for n, t in files]
+            for cfg in order.split(','):
+                api3 = specs_to_ir(older)
+                try:
+                    B.run_backend(api3, cfg, os.path.join(outdir, '_older_' + cfg))
+                except BackendException:
+                    pass
+        except Exception:
+            pass
         # ... and runs that FAIL part-way through (two routes whose generated names collide, in a
         # namespace that has already made the backend register imports and emit types): whatever a
         # backend keeps on its class or module must not survive an aborted run either
